@@ -7,10 +7,15 @@ import common, l3, jsonx
 from checks.c01 import _get_by_pos
 
 PID = "C12"
-PAIRS = {"w": "base", "wall": "all", "wrepl": "repl"}
+PAIRS = {"w": "base", "wall": "all", "wrepl": "repl", "wsel": "sel"}
 
 
-def components(name):
+def components(name, full_ns=False):
+    """Name components as the statement sees them: a full namespace is 'db.coll' -> P(db).P(coll); a leading '$' of a name
+    (collection '$cmd.aggregate') does not take part in the pseudonym."""
+    if full_ns and "." in name:
+        d, c = name.split(".", 1)
+        return components(d) + components(c)
     return name.lstrip("$").split(".")
 
 
@@ -40,7 +45,7 @@ def judge(byc, res):
                 else:
                     claimed = l3.in_zone(p)          # $lookup.from, $merge.into ... inside pipelines
             if claimed:
-                for comp in components(lf.node[1]):
+                for comp in components(lf.node[1], full_ns=(lf.path[-1] == "ns")):
                     if len(comp) >= 5 and comp not in ("system", "buckets"):
                         planted.setdefault(comp, []).append(lf)
             else:
@@ -75,7 +80,7 @@ def judge(byc, res):
             o = _get_by_pos(rw, lf)
             if o is None or o[0] != 'str' or o == lf.node or not cfg.pseudo_re().match(o[1]):
                 continue
-            ic, oc = components(lf.node[1]), o[1].split(".")
+            ic, oc = components(lf.node[1], full_ns=(lf.path[-1] == "ns")), o[1].split(".")
             if len(ic) != len(oc):
                 l3.add_violation(res, "pseudonym does not keep the dotted structure at %s flags=%s" % (l3.abstract_path(lf.path), flags), rw, {"in": lf.node[1], "out": o[1]})
                 continue
@@ -83,6 +88,27 @@ def judge(byc, res):
                 if mapping.setdefault(a, b) != b:
                     l3.add_violation(res, "one name, two pseudonyms within a line (%s) flags=%s" % (l3.abstract_path(lf.path), flags), rw,
                                      {"name": a, "pseudonyms": [mapping[a], b]})
+        # 'db.coll' is replaced by 'P(db).P(coll)': attr.ns must be put together from the pseudonyms the same line shows for
+        # its database ($db) and its collection (the verb's value / getMore's collection)
+        by_text = {}
+        ns_leaf = None
+        for lf in rw.leaves:
+            if lf.lab != "ns" or lf.node[0] != 'str':
+                continue
+            o = _get_by_pos(rw, lf)
+            if o is None or o[0] != 'str' or not cfg.pseudo_re().match(o[1]):
+                continue
+            if lf.path == ("attr", "ns"):
+                ns_leaf = (lf, o[1])
+            elif gated and len(lf.path) == 3 and lf.path[1] in l3.HOLDERS and lf.path[2] in l3.NS_COMMAND_FIELDS:
+                by_text.setdefault(lf.node[1], set()).add(o[1])
+        if ns_leaf is not None and "." in ns_leaf[0].node[1]:
+            d, c_ = ns_leaf[0].node[1].split(".", 1)
+            for pd in by_text.get(d, ()):
+                for pc in by_text.get(c_, ()):
+                    if ns_leaf[1] != pd + "." + pc:
+                        l3.add_violation(res, "attr.ns is not P(db).P(coll) of the pseudonyms the line shows for its database and collection (%s) flags=%s" % (
+                            "collection starts with '$'" if c_.startswith("$") else "other", flags), rw, {"ns": ns_leaf[1], "db": pd, "coll": pc, "names": [d, c_]})
         inv = {}
         for a, b in mapping.items():
             if inv.setdefault(b, a) != a:
@@ -106,7 +132,9 @@ def judge(byc, res):
 
 
 def cfgs(tier):
-    cs = [l3.Cfg("base"), l3.Cfg("w", ns=True), l3.Cfg("all", num=True, bool=True, ips=True), l3.Cfg("wall", ns=True, num=True, bool=True, ips=True)]
+    cs = [l3.Cfg("base"), l3.Cfg("w", ns=True), l3.Cfg("all", num=True, bool=True, ips=True), l3.Cfg("wall", ns=True, num=True, bool=True, ips=True),
+          # --redactNamespaces together with --redactFieldsRegexp: names must still be gone although selective mode keeps what does not match
+          l3.Cfg("sel", re="anch", match_keys=("zzsecretA",)), l3.Cfg("wsel", re="anch", ns=True, match_keys=("zzsecretA",))]
     if tier == "thorough":
         cs += [l3.Cfg("repl", replacement="Ωx"), l3.Cfg("wrepl", replacement="Ωx", ns=True)]
     return cs
